@@ -230,12 +230,19 @@ def run_unit(unit, repo='/repo', tier='quick', seed=0):
         return 'units/%s/unit.rs:?' % unit
 
     r = run_verus(path, seed=(seed or None) if tier == 'thorough' else None)
+    if any(d.get('level') == 'error' and TOOL_LIMIT.search(d.get('message', '')) for d in r['diags']):
+        # a function ran out of resources: one more attempt with 6x the default limit before calling it undecided
+        r_hi = run_verus(path, rlimit=60, seed=(seed or None) if tier == 'thorough' else None)
+        if r_hi['json'].get('times-ms'):
+            r = r_hi
+            res['rlimit_retry'] = 60
     res['checker_cmd'] = r['cmd']
     res['verus_wall_s'] = r['wall_s']
     js = r['json']
     vr = js.get('verification-results', {})
     # --- front-end errors (type errors, unsupported constructs): tool limit, never an alarm
     hard = []
+    hard_items = []
     fails = []
     for d in r['diags']:
         if d.get('level') != 'error':
@@ -254,6 +261,7 @@ def run_unit(unit, repo='/repo', tier='quick', seed=0):
         if kind is None or d.get('code'):
             if TOOL_LIMIT.search(msg):
                 hard.append('rlimit: %s @%s in %s' % (msg, origin(line), fn_at(line)))
+                hard_items.append({'function': fn_at(line), 'message': msg.split('\n')[0][:200], 'site': origin(line)})
             else:
                 hard.append('%s @%s' % (msg.split('\n')[0][:300], origin(line)))
             continue
@@ -314,8 +322,9 @@ def run_unit(unit, repo='/repo', tier='quick', seed=0):
     real_fails = [f for f in fails if not f['function'].split('::')[-1].startswith('canary_')]
     res['obligations'] = [o for o in obl if not o['function'].split('::')[-1].startswith('canary_')]
     if hard:
-        # rlimit etc. alongside ordinary failures: undecided unless the ordinary failures are stable
+        # rlimit etc. alongside ordinary failures: the functions that ran out of resources are undecided (see ./check)
         res['hard'] = hard
+        res['hard_items'] = hard_items
     vac = [c for c, ok in res['canaries'].items() if not ok]
     if vac:
         res['reason'] = 'vacuity canary verified (contradictory precondition?): %s' % ', '.join(vac)
